@@ -781,3 +781,13 @@ Proof.
   { destruct (train_op (registered n y') x' y'); simpl in *; exact H. }
   apply train_op_after in A. tauto.
 Qed.
+
+(* a Model none of whose nodes has an offline rule refuses fit with TypeError, its nodes being exactly what they were *)
+Lemma model_fit_unsupported (nodes : list node) :
+  Forall (fun n => has_offline (nkind n) = false) nodes -> model_fit_guard nodes = Some (TypeError, nodes).
+Proof.
+  intro F. unfold model_fit_guard.
+  assert (E : existsb (fun n => has_offline (nkind n)) nodes = false).
+  { induction F as [|n l Hn _ IH]; simpl; [reflexivity|]. rewrite Hn, IH. reflexivity. }
+  rewrite E. reflexivity.
+Qed.
